@@ -18,8 +18,12 @@ cvars == <<c>>
 
 \* h: what the application's stop callback does in its first step, i.e. (tasks start eagerly) inside the very
 \* callback in which the session ends:  "none" | "start" (reconnect at once) | "api" (issue a command)
-CInitH(h) ==
-          c = [ hook |-> h,
+\* nz: the client is configured with a Noise key (the device then announces its name, "dev", before the handshake)
+CInitHN(h, nz) ==
+          c = [ hook |-> h, noise |-> nz,
+               exp |-> "none",       \* the device name the client expects at the moment (APIClient.expected_name; may be set at any time)
+               hn |-> <<>>,          \* per connection: the name in the HelloResponse it was given ("none": not yet)
+               nexp |-> <<>>,        \* per connection: the expected name when its finish phase began (the Noise helper checks against that)
                ptr |-> 0,            \* index of the connection APIClient._connection points to, 0 = None
                st |-> <<>>,          \* visible state of every connection object created so far
                ever |-> <<>>,        \* did it reach "connected"
@@ -30,6 +34,7 @@ CInitH(h) ==
                wf |-> {},            \* connections whose transport raises on write from now on (broken pipe, reset)
                dn |-> <<>>,          \* operations that ended in this callback: <<op, class>>
                gate |-> "none" ]     \* verdict of the API gate in this callback: none | open | shut | shut_in_stop
+CInitH(h) == CInitHN(h, FALSE)
 CInit == CInitH("none")
 
 Live == {"opened", "hsdone", "connected"}
@@ -52,6 +57,7 @@ Close(x, i) ==
        IN IF ~stop \/ x.hook = "none" THEN y
           ELSE IF x.hook = "start"
                THEN [y EXCEPT !.st = Append(@, "init"), !.ever = Append(@, FALSE), !.ptr = Len(y.st) + 1,
+                              !.hn = Append(@, "none"), !.nexp = Append(@, "none"),
                               !.phs = Append(@, [k |-> "start", on |-> Len(y.st) + 1, op |-> "start"])]
                ELSE Done([y EXCEPT !.gate = "shut_in_stop"], "api", "ANY")
 
@@ -61,6 +67,7 @@ UserStart(x0) ==
   LET x == Begin(x0) IN
   IF x.ptr # 0 THEN {Done(x, "start", "APIConnectionError")}
   ELSE {[x EXCEPT !.st = Append(@, "init"), !.ever = Append(@, FALSE), !.ptr = N(x) + 1,
+                  !.hn = Append(@, "none"), !.nexp = Append(@, "none"),
                   !.phs = Append(@, [k |-> "start", on |-> N(x) + 1, op |-> "start"])]}
 
 \* connect(): both phases in one call
@@ -68,13 +75,14 @@ UserConnect(x0) ==
   LET x == Begin(x0) IN
   IF x.ptr # 0 THEN {Done(x, "connect", "APIConnectionError")}
   ELSE {[x EXCEPT !.st = Append(@, "init"), !.ever = Append(@, FALSE), !.ptr = N(x) + 1,
+                  !.hn = Append(@, "none"), !.nexp = Append(@, "none"),
                   !.phs = Append(@, [k |-> "start", on |-> N(x) + 1, op |-> "connect"])]}
 
 \* finish_connection on the connection a successful start left opened
 UserFinish(x0) ==
   LET x == Begin(x0) IN
   IF x.ptr = 0 \/ PhaseOn(x, x.ptr) \/ x.st[x.ptr] # "opened" THEN {}      \* outside the domain
-  ELSE {[x EXCEPT !.phs = Append(@, [k |-> "finish", on |-> x.ptr, op |-> "finish"])]}
+  ELSE {[x EXCEPT !.phs = Append(@, [k |-> "finish", on |-> x.ptr, op |-> "finish"]), !.nexp[x.ptr] = x.exp]}
 
 \* the pointer after disconnect() has returned for connection i: forgotten, unless a connect
 \* phase on that connection is still unwinding (it forgets the connection when it ends)
@@ -112,6 +120,17 @@ EnvWriteFail(x0, i) == IF i \in 1..N(x0) THEN {[Begin(x0) EXCEPT !.wf = @ \cup {
 \* they no longer raise); the connection itself learns of the loss in a later callback (EnvClose)
 EnvReset(x0, i) == {[Begin(x0) EXCEPT !.wf = @ \ {i}]}
 
+\* ---------------------------------------------------------------- names
+\* the application sets / clears the expected device name (at any time: the connection sees the current value)
+UserExpect(x0, n) == {[Begin(x0) EXCEPT !.exp = n]}
+\* the device's HelloResponse for connection i carries the name n
+EnvHello(x0, i, n) == IF i \in 1..N(x0) THEN {[Begin(x0) EXCEPT !.hn[i] = n]} ELSE {Begin(x0)}
+\* the name the device announced differs from the expected one: in its Noise hello ("dev", checked against the
+\* expectation the helper was built with) or in its HelloResponse (checked against the current expectation;
+\* an empty name is a device that announces none)
+NameBad(x, i) == \/ (x.noise /\ x.nexp[i] \notin {"none", "dev"})
+                 \/ (x.exp # "none" /\ x.hn[i] \notin {"none", "", x.exp})
+
 \* ---------------------------------------------------- connection-level
 \* the phase in progress ends
 PhaseEnd(x0, j, res) ==
@@ -122,10 +141,16 @@ PhaseEnd(x0, j, res) ==
          IF x.st[i] = "closed" THEN {}                                     \* a close is never undone (C05)
          ELSE IF p.k = "start"
               THEN IF p.op = "connect"
-                   THEN {[x EXCEPT !.st[i] = "opened", !.phs[j] = [k |-> "finish", on |-> i, op |-> "connect"]]}
+                   THEN {[x EXCEPT !.st[i] = "opened", !.phs[j] = [k |-> "finish", on |-> i, op |-> "connect"], !.nexp[i] = x.exp]}
                    ELSE {Done([x EXCEPT !.st[i] = "opened", !.phs = DropAt(@, j)], "start", "ok")}
+              \* a session only with a device whose name is the expected one, whenever one is configured (C06)
+              ELSE IF NameBad(x, i) THEN {}
               ELSE {Done([x EXCEPT !.st[i] = "connected", !.ever[i] = TRUE, !.phs = DropAt(@, j)], p.op, "ok")}
-    ELSE {Done([x EXCEPT !.st[i] = "closed", !.ptr = IF @ = i THEN 0 ELSE @, !.phs = DropAt(@, j)], p.op, "ANY")}
+    ELSE IF res = "badname" THEN
+         \* the bad-name error is raised for a name that really differs from the one expected - never otherwise
+         IF p.k # "finish" \/ ~NameBad(x, i) THEN {}
+         ELSE {Done([x EXCEPT !.st[i] = "closed", !.ptr = IF @ = i THEN 0 ELSE @, !.phs = DropAt(@, j)], p.op, "BadNameAPIError")}
+    ELSE {Done([x EXCEPT !.st[i] = "closed", !.ptr = IF @ = i THEN 0 ELSE @, !.phs = DropAt(@, j)], p.op, "ANY-")}
 
 \* visible progress inside the finish phase
 Progress(x0) ==
